@@ -1,0 +1,9 @@
+//go:build verif
+// +build verif
+
+package tup
+
+// Verification hook (build tag verif only): read-only view of the attribute set.
+
+// VerifData returns the attribute map itself (key -> buffer); callers must not modify it.
+func (u *UniAttribute) VerifData() map[string][]byte { return u.data }
